@@ -1619,6 +1619,7 @@ func (cs *ConsensusState) receiveRoutine(maxSteps int) {
 		}
 	}()
 	for {
+		verifGate("recv", cs)
 		if maxSteps > 0 {
 			if cs.nSteps >= maxSteps {
 				cs.Logger.Info("reached max steps. exiting receive routine")
